@@ -530,6 +530,7 @@ func (db *DB) ResetLocalState(ctx context.Context) error {
 		"ltx_dir", db.LTXDir())
 
 	// Remove all LTX files
+	verifhook.FS("removeall", db.LTXDir(), "")
 	if err := os.RemoveAll(db.LTXDir()); err != nil && !os.IsNotExist(err) {
 		return fmt.Errorf("remove ltx directory: %w", err)
 	}
@@ -568,6 +569,7 @@ func (db *DB) openLocalLTXFile(level int, minTXID, maxTXID ltx.TXID) (io.ReadClo
 // Used by the Compactor for retention enforcement.
 func (db *DB) deleteLocalLTXFile(level int, minTXID, maxTXID ltx.TXID) error {
 	path := db.LTXPath(level, minTXID, maxTXID)
+	verifhook.FS("remove", path, "")
 	if err := os.Remove(path); err != nil && !os.IsNotExist(err) {
 		return err
 	}
@@ -1550,6 +1552,7 @@ type ltxStagingFile interface {
 }
 
 func defaultOpenLTXFile(name string, flag int, perm os.FileMode) (ltxStagingFile, error) {
+	verifhook.FS("create", name, "")
 	return os.OpenFile(name, flag, perm)
 }
 
@@ -1618,6 +1621,7 @@ func (db *DB) checkDatabaseBehindReplica(ctx context.Context) error {
 
 	// Clear local L0 files
 	l0Dir := db.LTXLevelDir(0)
+	verifhook.FS("removeall", l0Dir, "")
 	if err := os.RemoveAll(l0Dir); err != nil && !os.IsNotExist(err) {
 		return fmt.Errorf("remove L0 directory: %w", err)
 	}
@@ -1638,17 +1642,20 @@ func (db *DB) checkDatabaseBehindReplica(ctx context.Context) error {
 	localPath := db.LTXPath(0, minTXID, maxTXID)
 	tmpPath := localPath + ".tmp"
 
+	verifhook.FS("create", tmpPath, "")
 	tmpFile, err := os.Create(tmpPath)
 	if err != nil {
 		return fmt.Errorf("create temp L0 file: %w", err)
 	}
 	defer func() { _ = os.Remove(tmpPath) }() // Clean up temp file on error
 
+	verifhook.FS("write", tmpPath, "")
 	if _, err := io.Copy(tmpFile, reader); err != nil {
 		_ = tmpFile.Close()
 		return fmt.Errorf("copy L0 file: %w", err)
 	}
 
+	verifhook.FS("fsync", tmpPath, "")
 	if err := tmpFile.Sync(); err != nil {
 		_ = tmpFile.Close()
 		return fmt.Errorf("sync L0 file: %w", err)
@@ -1659,6 +1666,7 @@ func (db *DB) checkDatabaseBehindReplica(ctx context.Context) error {
 	}
 
 	// Atomically rename temp file to final path
+	verifhook.FS("rename", tmpPath, localPath)
 	if err := os.Rename(tmpPath, localPath); err != nil {
 		return fmt.Errorf("rename L0 file: %w", err)
 	}
@@ -2144,6 +2152,7 @@ func (db *DB) sync(ctx context.Context, checkpointing bool, exec *syncExecutor, 
 		"salt1", rd.salt1,
 		"salt2", rd.salt2)
 
+	verifhook.FS("write", tmpFilename, "")
 	timestamp := time.Now()
 	enc, err := ltx.NewEncoder(ltxFile)
 	if err != nil {
@@ -2217,6 +2226,7 @@ func (db *DB) sync(ctx context.Context, checkpointing bool, exec *syncExecutor, 
 		s.txID = txID
 		s.walSize = sz
 	})
+	verifhook.FS("fsync", tmpFilename, "")
 	if err := ltxFile.Sync(); err != nil {
 		if isDiskFullError(err) {
 			return result, NewLTXError("stage-sync", tmpFilename, 0, uint64(txID), uint64(txID), fmt.Errorf("%w: %w", ErrDiskFull, err))
@@ -2235,6 +2245,7 @@ func (db *DB) sync(ctx context.Context, checkpointing bool, exec *syncExecutor, 
 		s.txID = txID
 		s.walSize = sz
 	})
+	verifhook.FS("rename", tmpFilename, filename)
 	if err := os.Rename(tmpFilename, filename); err != nil {
 		db.maxLTXFileInfos.Lock()
 		delete(db.maxLTXFileInfos.m, 0) // clear cache if in unknown state
@@ -3016,6 +3027,7 @@ func (db *DB) EnforceSnapshotRetention(ctx context.Context, timestamp time.Time)
 		localPath := db.LTXPath(SnapshotLevel, info.MinTXID, info.MaxTXID)
 		db.Logger.Debug("deleting local ltx file", "level", SnapshotLevel, "minTXID", info.MinTXID, "maxTXID", info.MaxTXID, "path", localPath)
 
+		verifhook.FS("remove", localPath, "")
 		if err := os.Remove(localPath); err != nil && !os.IsNotExist(err) {
 			db.Logger.Error("failed to remove local ltx file", "path", localPath, "error", err)
 		}
@@ -3137,6 +3149,7 @@ func (db *DB) EnforceL0RetentionByTime(ctx context.Context) error {
 	for _, info := range deleted {
 		localPath := db.LTXPath(0, info.MinTXID, info.MaxTXID)
 		db.Logger.Debug("deleting expired local l0 file", "minTXID", info.MinTXID, "maxTXID", info.MaxTXID, "path", localPath)
+		verifhook.FS("remove", localPath, "")
 		if err := os.Remove(localPath); err != nil && !os.IsNotExist(err) {
 			db.Logger.Error("failed to remove local l0 file", "path", localPath, "error", err)
 		}
